@@ -28,6 +28,8 @@ def run(ctx) -> None:
                     "parse_file_lines", "RemoveEmptyInstructions.observe_instruction")
     I = make_interp(ctx.p)
     shapes.line_record_rule(ctx, I, "C08.K1.instruction-line-gives-one-instruction")
+    if ctx.tier == "thorough":
+        shapes.thorough_line_rule(ctx, I, "C08.K1.instruction-line-gives-one-instruction")
     shapes.other_lines_rule(ctx, I, "C08.K2.other-line-kinds-give-nothing")
     from ._parser import forwarding_rule, instr_patterns, lines_parsed_independently, site_field_kinds
     forwarding_rule(ctx, "C08.K3.one-per-line-in-file-order")
